@@ -21,8 +21,9 @@ Wrong(r, hi, k) ==
       caps == Tail(m)
       names == r.names
       probe == [j \in DOMAIN a.named |-> a.named[j][1]]
-  IN (IF a.ncaps = r.ng /\ Len(caps) = r.ng THEN {} ELSE {"slot count"})
-     \cup (IF a.range = range /\ a.startend = range /\ a.as_str_ok THEN {} ELSE {"range/start/end/as_str"})
+  IN \* with the wrong number of capture slots nothing else can be evaluated
+     IF a.ncaps # r.ng \/ Len(caps) # r.ng THEN {"slot count"} ELSE
+     (IF a.range = range /\ a.startend = range /\ a.as_str_ok THEN {} ELSE {"range/start/end/as_str"})
      \cup (IF a.group = [i \in 1..(r.ng + 2) |-> Group(range, caps, i - 1)] THEN {} ELSE {"group(i)"})
      \cup (IF a.groups = Groups(range, caps) /\ a.groups_len = r.ng + 1 THEN {} ELSE {"groups()"})
      \cup (IF \A j \in DOMAIN a.named : a.named[j][2] = NamedGroup(caps, names, probe[j]) THEN {} ELSE {"named_group(name)"})
